@@ -211,7 +211,8 @@ func pkUniq(name string, cols ...string) *uniqDef {
 var tableDefs = map[string]*tableDef{}
 
 func init() {
-	for _, d := range []*tableDef{volumesTable(), transactionsTable(), logsTable(), accountsTable(), schemasTable(), movesTable(), pipelinesTable(), exportersTable()} {
+	for _, d := range []*tableDef{volumesTable(), transactionsTable(), logsTable(), accountsTable(), schemasTable(), movesTable(), pipelinesTable(), exportersTable(),
+		metaHistoryTable("accounts_metadata", "acctmeta", "accounts_address", false), metaHistoryTable("transactions_metadata", "txmeta", "transactions_id", true)} {
 		tableDefs[d.name] = d
 	}
 }
@@ -811,3 +812,48 @@ func (x *sqlExec) nextvalInternal(name string) (Val, error) {
 
 var _ = fmt.Sprint
 var _ = strconv.Itoa
+
+// ---- accounts_metadata / transactions_metadata (read only: written by the history triggers, metaHistory) ----
+
+func metaHistoryTable(name, simTable, idCol string, numericID bool) *tableDef {
+	d := &tableDef{name: name, simTable: simTable}
+	idTyp := ctText
+	if numericID {
+		idTyp = ctNumeric
+	}
+	d.cols = []colDef{
+		{name: "ledger", typ: ctText, notNull: true},
+		{name: idCol, typ: idTyp, notNull: true},
+		{name: "revision", typ: ctNumeric, notNull: true},
+		{name: "date", typ: ctTimestamp, notNull: true},
+		{name: "metadata", typ: ctJSONB, notNull: true},
+	}
+	d.uniqs = []*uniqDef{pkUniq(name+"_pkey", "ledger", idCol, "revision")}
+	d.keyOf = func(vals []Val) (rowKey, error) {
+		return rowKey{}, unsupported("write to %s", name)
+	}
+	d.toVals = func(k rowKey, row any) ([]Val, error) {
+		m := row.(*MetaRev)
+		md := m.Metadata
+		if md == nil {
+			md = map[string]string{}
+		}
+		meta, err := jsonOf(md)
+		if err != nil {
+			return nil, err
+		}
+		var id Val = m.ID
+		if numericID {
+			n, ok := new(big.Int).SetString(m.ID, 10)
+			if !ok {
+				return nil, unsupported("history id %q", m.ID)
+			}
+			id = n
+		}
+		return []Val{k.Ledger, id, bigFromInt(int64(m.Revision)), m.Date.UTC().Truncate(gotime.Microsecond), meta}, nil
+	}
+	d.fromVals = func(k rowKey, vals []Val, _ any) (any, error) {
+		return nil, unsupported("write to %s", name)
+	}
+	return d
+}
